@@ -67,7 +67,7 @@ CHECKS['C13'] = dict(
          'and every QM question asked is recorded with time and known answers. Remaining TTL on the wire is C14 (_write_ttl).',
     design_ref='DESIGN.md section 4 C13',
     note='packet grouping (_group_ptr_queries_with_known_answers) assumed to keep questions with their known answers; '
-         'ServiceInfo lookups (_add_question_with_known_answers, async_request spacing) not under contract in this build; '
+         'ServiceInfo lookups (_add_question_with_known_answers, _generate_request_query, async_request QU/QM progression) are verified in the C18 check; '
          'browsed types distinct ignoring case')
 CHECKS['C12'] = dict(
     text='The multicast reply queue is proved for every arrival time, random draw and queue content: async_add schedules '
@@ -185,6 +185,26 @@ CHECKS['C17'] = dict(
          'STABLE listed in contracts/c17.py); close() from a foreign thread is outside the family; browser cancellation by '
          'remove_all_service_listeners and the effect of closing transports are assumed (ghost flags); packets() and '
          'async_send_with_transport abstracted')
+CHECKS['C18'] = dict(
+    text='Seven functions of the lookup are under contract and verified for all caches, records and clocks: '
+         '_process_record_threadsafe: an expired record changes nothing; host/port/priority/weight change only from a live SRV record '
+         'whose key is the instance\'s, TXT only from a live TXT record of it, addresses only from a live address record whose key is '
+         'the host\'s (then that address is held and nothing else is added) or when a live SRV moves the host; no held address is '
+         'dropped otherwise. _get_ip_addresses_from_cache_lifo: every returned address comes from a cached address record of the host, '
+         'of the asked type, that is not expired at `now`, no duplicates. _load_from_cache returns exactly "knows an address". '
+         '_add_question_with_known_answers: asked unless (SRV/TXT) a non-stale answer is cached or (QM) the history suppresses it; QU '
+         'never suppressed nor recorded; known answers exactly the cached records with more than half their TTL left, written at '
+         '`now`; QM questions recorded. _generate_request_query: one flag for the whole query. async_request with the await model: '
+         'succeeds iff it knows an address at return; the listener registration is removed on every exit path (finally, also on '
+         'exceptions); for a started instance it returns no later than the timeout (ideal clock) and builds no query at or after the '
+         'deadline; QU for the first query and QM afterwards, a forced type applying to the first query (call-site obligations); '
+         'nothing is sent once complete and never an empty query.',
+    design_ref='DESIGN.md section 4 C18 and 9',
+    note='NOT proved (kept as concrete-only clauses, bounded): completeness of the address load (every live cached address of the host '
+         'is held after _load_from_cache / returned by the lifo read); the spacing of successive queries. Optional[str] server fields '
+         'modelled as strings (None = empty string); address objects are an uninterpreted function of the record identity; cached '
+         'A/AAAA records are DNSAddress objects (decoder, C02); A5 await model with the stability rely clauses listed in '
+         'contracts/c18.py; termination of the wait loop is not proved')
 NOT_APPLICABLE = {
     'C07': 'end-to-end liveness over several hosts and lossy delivery: no per-function contract can express it '
            '(DESIGN.md section 6)',
